@@ -688,6 +688,47 @@ mod verif_cex_history {
         }
     }
 
+    // C01 / C16: ONE commit that needs far more than one extension step of the file (a bulk load of about 12 MiB); the next
+    // transactions on the same handle, and a reopen, read everything back (the map covers whatever the commit wrote)
+    fn run_bulk_load_shape(ps: u64, n: u32, vlen: usize) -> Result<(), String> {
+        let p = std::env::temp_dir().join(format!("jammdb-cex-bulk-{}-{}-{}.db", ps, n, std::process::id()));
+        let _ = std::fs::remove_file(&p);
+        let res = (|| {
+            let what = format!("shape: fresh file (page size {}), ONE transaction puts {} values of {} bytes (about {} MiB, several extension steps at once) and commits; then further transactions on the same handle", ps, n, vlen, (n as usize * vlen) >> 20);
+            let db = OpenOptions::new().pagesize(ps).open(&p).map_err(|e| format!("open: {:?}", e))?;
+            let mut m = MB::default();
+            let mut bm = MB::default();
+            {
+                let tx = db.tx(true).unwrap();
+                let b = tx.create_bucket("bulk").unwrap();
+                for i in 0..n { let v = vec![(i % 251) as u8; vlen]; b.put(format!("k{:06}", i), v.clone()).unwrap(); bm.items.insert(format!("k{:06}", i).into_bytes(), M::Kv(v)); bm.next_int += 1; }
+                tx.commit().map_err(|e| format!("{}: the commit fails: {:?}", what, e))?;
+            }
+            m.items.insert(b"bulk".to_vec(), M::B(bm)); m.next_int = 1;
+            read_all(&db, &m, &format!("{} (first transaction after the bulk commit)", what))?;
+            { let tx = db.tx(true).unwrap(); tx.get_bucket("bulk").unwrap().put("after", "x").unwrap(); tx.commit().map_err(|e| format!("{}: a later commit fails: {:?}", what, e))?; }
+            if let Some(M::B(bm)) = m.items.get_mut(&b"bulk".to_vec()) { bm.items.insert(b"after".to_vec(), M::Kv(b"x".to_vec())); bm.next_int += 1; }
+            db.check().map_err(|e| format!("{}: DB::check() fails: {:?}", what, e))?;
+            drop(db);
+            let db = OpenOptions::new().pagesize(ps).open(&p).map_err(|e| format!("{}: reopen fails: {:?}", what, e))?;
+            read_all(&db, &m, &format!("{} (after reopening)", what))?;
+            Ok(())
+        })();
+        let _ = std::fs::remove_file(&p);
+        res
+    }
+
+    #[test]
+    fn cex_history_bulk_load() {
+        for (ps, n, vlen) in [(4096u64, 3000u32, 4000usize), (1024, 9500, 1000)] {
+            match std::panic::catch_unwind(|| run_bulk_load_shape(ps, n, vlen)) {
+                Ok(Ok(())) => {}
+                Ok(Err(e)) => { println!("CEX history (C01/C16): {}", e); panic!("bulk load mismatch"); }
+                Err(_) => { println!("CEX history (C01 nothing panics): bulk-load shape: page size {}, ONE transaction puts {} values of {} bytes and commits; a later transaction on the same handle (or the commit itself) panicked", ps, n, vlen); panic!("bulk load panic"); }
+            }
+        }
+    }
+
     #[test]
     fn cex_history_deep_shapes() {
         for (lo, hi) in [(0u32, 280u32), (150, 450), (300, 600), (450, 750), (600, 900), (900, 1200), (1200, 1500), (100, 1400)] {
